@@ -55,6 +55,8 @@ structure Holds (cfg : Cfg) : Prop where
     (∀ p ∈ dir, p.2 ≠ [] ∧ ∃ now ops st, createFileCfg cfg p.2 now = some st ∧ p.1 = (runOps cfg codec crc bs st ops).file) →
     (∀ n, n ∈ Hv.Storage.listing cfg codec.toDecoder crc (dir.map (·.1)) ↔ (n ∈ dir.map (·.2) ∧ splits3 n = true)) ∧
     (Hv.Storage.listing cfg codec.toDecoder crc (dir.map (·.1))).Nodup
+  /-- the interactive explorer shows the whole listing of a realm, however large -/
+  tuiComplete : ∀ sorted : List Bytes, tuiView cfg sorted = sorted
   /-- the explorer lists a file the engine wrote under exactly its name, iff the name has the
       three-part form; nothing else can appear for it -/
   listed : ∀ (codec : Codec) (crc : Checksum) (bs : Nat) (name : Bytes) (now : Nat) (st : St) (ops : List Op),
@@ -184,11 +186,11 @@ theorem listing_exact (cfg : Cfg) (codec : Codec) (crc : Checksum) (bs : Nat) (d
     simp [h3]
 
 def Good (cfg : Cfg) : Prop :=
-  cfg.rejectsLongName = true ∧ cfg.v2Fallback = true
+  cfg.rejectsLongName = true ∧ cfg.v2Fallback = true ∧ cfg.tuiListsAll = true
 
 theorem holds_of_good (cfg : Cfg) (hg : Good cfg) : Holds cfg := by
-  obtain ⟨h1, h2⟩ := hg
-  refine ⟨?_, ?_, ?_, ?_, ?_, ?_⟩
+  obtain ⟨h1, h2, h3⟩ := hg
+  refine ⟨?_, ?_, ?_, ?_, ?_, tuiView_all cfg h3, ?_⟩
   · intro codec crc bs name now st ops hc
     obtain ⟨hst, hn⟩ := createFileCfg_some cfg h1 name now st hc
     subst hst
@@ -226,7 +228,7 @@ theorem holds_partial (cfg : Cfg) : HoldsPartial cfg :=
     ⟨name_roundtrip_v3 cfg codec crc bs name now hn ops, fun hne => scan_v3 cfg codec crc bs name now hn hne ops⟩
 
 /-! non-vacuity -/
-example : Good goodCfg := ⟨rfl, rfl⟩
+example : Good goodCfg := ⟨rfl, rfl, rfl⟩
 example : splits3 [0x61, 0x2f, 0x62, 0x2f, 0x63] = true := by decide   -- "a/b/c"
 example : splits3 [0x61, 0x2f, 0x62] = false := by decide              -- "a/b"
 
@@ -282,6 +284,12 @@ theorem not_holds_of_noFallback (cfg : Cfg) (h : cfg.v2Fallback = false) : ¬ Ho
   rw [ho] at this
   simp [hver, h] at this
 
+theorem not_holds_of_tuiOnePage (cfg : Cfg) (h : cfg.tuiListsAll = false) : ¬ Holds cfg := by
+  intro hh
+  have := congrArg List.length (hh.tuiComplete (List.replicate 1001 []))
+  rw [tuiView_truncates cfg h, List.length_replicate] at this
+  omega
+
 /-! ### Decision over the extracted facts -/
 
 structure Facts where
@@ -300,10 +308,12 @@ structure Facts where
   openRecreatesShortFile : Tri
   /-- `Explorer.Scan` clears the index before every directory walk -/
   scanClearsIndex : Tri
+  /-- the TUI pages through ListSwamps (or uses ListAllSwamps) when it opens a realm -/
+  tuiListsAll : Tri
   deriving Repr
 
 def cfgOf (f : Facts) : Cfg :=
-  { goodCfg with v2Fallback := f.v2Fallback.isYes, rejectsLongName := f.rejectsLongName.isYes }
+  { goodCfg with v2Fallback := f.v2Fallback.isYes, rejectsLongName := f.rejectsLongName.isYes, tuiListsAll := f.tuiListsAll.isYes }
 
 def shapeOk (f : Facts) : Bool :=
   f.nameLenBytes == some 2 && f.writesNameAfterHeader == .yes && f.nameReadGuardedByV3 == .yes &&
@@ -312,11 +322,12 @@ def shapeOk (f : Facts) : Bool :=
 
 def findings (f : Facts) : List String :=
   (if f.rejectsLongName == .no then ["C29-long-name-truncated"] else []) ++
-  (if f.v2Fallback == .no then ["C29-no-v2-fallback"] else [])
+  (if f.v2Fallback == .no then ["C29-no-v2-fallback"] else []) ++
+  (if f.tuiListsAll == .no then ["C29-tui-truncates-large-realm"] else [])
 
 def classify (f : Facts) : Verdict :=
   if !shapeOk f then .undetermined "name-area facts (NameLength width, V3 guard, DataStartOffset, metadata fallbacks, SplitN, short-file re-creation on open, index cleared per scan) differ from the model"
-  else if f.rejectsLongName == .unknown || f.v2Fallback == .unknown then .undetermined "createNewFile / ReadSwampName pattern not recognised"
+  else if f.rejectsLongName == .unknown || f.v2Fallback == .unknown || f.tuiListsAll == .unknown then .undetermined "createNewFile / ReadSwampName pattern not recognised"
   else if !(findings f).isEmpty then .violated (findings f)
   else .holds
 
@@ -328,7 +339,7 @@ theorem classify_sound (f : Facts) : (classify f).Sound (Holds (cfgOf f)) (Holds
     · trivial
     · rename_i hu
       simp only [Bool.or_eq_true, beq_iff_eq, not_or] at hu
-      obtain ⟨hu1, hu2⟩ := hu
+      obtain ⟨⟨hu1, hu2⟩, hu3⟩ := hu
       split
       · rename_i hf
         refine ⟨?_, holds_partial _⟩
@@ -336,10 +347,13 @@ theorem classify_sound (f : Facts) : (classify f).Sound (Holds (cfgOf f)) (Holds
         · exact not_holds_of_acceptsLongName _ (by simp [cfgOf, h1, Tri.isYes])
         · by_cases h2 : f.v2Fallback = .no
           · exact not_holds_of_noFallback _ (by simp [cfgOf, h2, Tri.isYes])
-          · exfalso; simp [findings, h1, h2] at hf
+          · by_cases h3 : f.tuiListsAll = .no
+            · exact not_holds_of_tuiOnePage _ (by simp [cfgOf, h3, Tri.isYes])
+            · exfalso; simp [findings, h1, h2, h3] at hf
       · rename_i hf
         have h1 : f.rejectsLongName = .yes := by cases h : f.rejectsLongName <;> simp_all [findings]
         have h2 : f.v2Fallback = .yes := by cases h : f.v2Fallback <;> simp_all [findings]
-        exact holds_of_good _ ⟨by simp [cfgOf, h1, Tri.isYes], by simp [cfgOf, h2, Tri.isYes]⟩
+        have h3 : f.tuiListsAll = .yes := by cases h : f.tuiListsAll <;> simp_all [findings]
+        exact holds_of_good _ ⟨by simp [cfgOf, h1, Tri.isYes], by simp [cfgOf, h2, Tri.isYes], by simp [cfgOf, h3, Tri.isYes]⟩
 
 end Hv.C29
